@@ -103,6 +103,14 @@ PROBES = [
     ("slugfunc", "# Ab C\n\n## Ab C\n\n[](#S-AB_C)\n", {"heading_anchors": 2, "heading_slug_func": "mv.slugfuncs.shout"}),
     ("warnings_suppressed", "### skip\n\n{nosuch}`r`\n", {"suppress_warnings": ["myst.header"]}),
     ("warnings_plain", "### skip\n\n{nosuch}`r`\n", {}),
+    # docutils' process-wide registries
+    ("default_role_set", "```{default-role} math\n```\n\n```{eval-rst}\n`a+b`\n```\n", {}),
+    ("default_role_use", "```{eval-rst}\n`a+b` :emphasis:`e`\n```\n\n```{note}\n```{eval-rst}\n`c`\n```\n```\n", {}),
+    ("role_define", "```{role} shoutx(emphasis)\n:class: loud\n```\n\n{shoutx}`x`\n", {}),
+    ("role_use_undefined", "{shoutx}`x` and\n\n```{eval-rst}\n:shoutx:`y` :rrx:`z`\n```\n", {}),
+    ("evalrst_role_define", "```{eval-rst}\n.. role:: rrx(strong)\n\n:rrx:`x`\n```\n\n{rrx}`y`\n", {}),
+    ("class_pending", "```{class} special\n```\n\npara\n\n```{eval-rst}\n.. class:: other\n\npara2\n```\n", {}),
+    ("title_and_meta", "```{title} New Title\n```\n\n```{meta}\n:keywords: a, b\n```\n\n# H\n", {}),
 ]
 
 
@@ -234,8 +242,12 @@ def sphinx_project(R):
     files["a_leak1.md"] = "---\nmyst:\n  enable_extensions: [deflist]\n---\n# Leak1\n\n```{figure-md} fig-t\n<img src=\"f.png\" alt=\"x\">\n\ncaption\n```\n\nterm\n: def\n"
     files["z_obs1.md"] = "# Obs1\n\n<img src=\"raw.png\" alt=\"raw\">\n\nterm\n: not a deflist here\n"
     files["a_leak2.md"] = "---\nmyst:\n  substitutions:\n    key: LEAKED\n  heading_anchors: 4\n  footnote_sort: false\n  url_schemes: [http]\n  sub_delimiters: ['[', ']']\n---\n# Leak2\n\n#### deep\n\n[[ key ]] x[^q]\n\n[^q]: q\n"
-    files["z_obs2.md"] = "# Obs2\n\n#### deep obs\n\n{{ key }} [l](https://e.org) [](#deep-obs) y[^r]\n\n[^r]: r\n\nlast\n"
+    files["z_obs2.md"] = "# Obs2\n\n#### deep obs\n\n{{ key }} [l](https://e.org) [](#deep-obs) y[^r] and[^r0]\n\n[^r0]: r0\n[^r]: r\n\n```python\ncode\n```\n\n:::{note}\nnot a fence\n:::\n\n- [ ] task\n\n[d](d00.md) last\n"
     files["a_leak4.md"] = "---\nmyst:\n  footnote_transition: false\n---\n# Leak4\n\n```{figure-md} fig-u\n<img src=\"g.png\" alt=\"y\">\n\ncaption two\n```\n\n```{note}\nfence\n```\n"
+    files["a_leak5.md"] = "---\nmyst:\n  enable_extensions: [nosuchextension]\n  url_schemes: 5\n  fence_as_directive: 7\n---\n# Leak5\n\n```{figure-md} fig-v\n<img src=\"h.png\" alt=\"z\">\n\ncaption three\n```\n"
+    # read directly before the observers: file-level values of every kind, different from the project's
+    files["y_leak6.md"] = ("---\nmyst:\n  footnote_sort: false\n  footnote_transition: false\n  title_to_header: true\n  enable_extensions: [colon_fence, attrs_inline, deflist, tasklist]\n  heading_anchors: 0\n"
+                           "  number_code_blocks: [python]\n  all_links_external: true\n  html_meta:\n    description: leaked\ntitle: Leak Six\n---\n\ntext[^z2] and[^z1]\n\n[^z1]: one\n[^z2]: two\n\nafter\n")
     files["a_leak3.md"] = "# Leak3\n\n```{include} shared.inc\n:heading-offset: 2\n:relative-docs: d\n:relative-images:\n```\n"
     files["z_obs3.md"] = "# Obs3\n\n```{eval-rst}\n.. include:: shared.inc\n   :heading-offset: 1\n```\n\n![i](pic.png) [d](d00.md)\n"
     toc = ["# Index", "", "```{toctree}"] + sorted(n[:-3] for n in files if n.endswith(".md")) + ["```", ""]
@@ -324,8 +336,8 @@ def eval_sphinx(ctx, case):
             ctx.violation("schedule:warnings-differ", f"-j{par}: warnings lost {lost} / extra {extra}", case, {"serial": wbase[:20], "parallel": w[:20]})
     ctx.count("distinct_merge_orders", len(orders))
     # observers with and without the leakers (serial)
-    lean = {k: v for k, v in files.items() if not k.startswith("a_leak")}
-    lean["index.md"] = "\n".join(l for l in files["index.md"].splitlines() if not l.startswith("a_leak")) + "\n"
+    lean = {k: v for k, v in files.items() if "_leak" not in k}
+    lean["index.md"] = "\n".join(l for l in files["index.md"].splitlines() if "_leak" not in l) + "\n"
     try:
         alone, walone, _ = sphinx_build(lean, conf, 1, 0)
     except Exception as e:  # noqa: BLE001
@@ -354,7 +366,7 @@ def eval_case(ctx, case):
 def run_shard(ctx):
     R = ctx.rng
     quick = ctx.tier == "quick"
-    pool_n = 26 if quick else 90
+    pool_n = len(PROBES) + 5 if quick else 90
     pool_seed = ctx.seed * 1000 + ctx.shard
     pool = POOLS.setdefault((pool_seed, pool_n), make_pool(pool_seed, pool_n))
     nh = 60 if quick else 4000
@@ -370,7 +382,7 @@ def run_shard(ctx):
         ctx.case(("history", tuple(hist)), True)
         if i == 0:
             ctx.sample({"history": [pool[j]["name"] for j in hist], "interleave": inter})
-        if ctx.time_left() < ctx.budget_s * (1 - t_hist):
+        if i >= 12 and ctx.time_left() < ctx.budget_s * (1 - t_hist):  # a floor of histories even on a loaded machine
             break
     ns = 1 if quick else 40
     for i in range(ns):
@@ -385,7 +397,7 @@ def run_shard(ctx):
 
 def finalize(m, tier):
     c = m["counters"]
-    for k, lo in (("history_steps", 5000), ("fresh_baselines", 300), ("sphinx_serial_builds", 12), ("sphinx_parallel_builds", 24), ("merge_events_logged", 50), ("observer_pairs_compared", 30)):
+    for k, lo in (("history_steps", 1500), ("fresh_baselines", 300), ("sphinx_serial_builds", 12), ("sphinx_parallel_builds", 24), ("merge_events_logged", 50), ("observer_pairs_compared", 30)):
         if c.get(k, 0) < lo:
             m["inconclusive"].append(f"monitor observed only {c.get(k, 0)} '{k}' events (< {lo})")
     mon.require_reach(m, ANCHORS)
